@@ -625,7 +625,27 @@ def r8_defaults(ctx):
     _check_defaults(ctx, table)
 
 
+def r10_alaska_replay_agrees(ctx):
+    """Alaska.get_profile answers for rounds >= 2 from an STV election it rebuilds: the answer is the run's only if that STV
+    is built with the same arguments, in the same slots, as the one the run built.  Decided by the sibling-agreement
+    clauses of C13.R3 (the clauses about get_profile) and by the argument-slot rule C13.R4 restricted to alaska.py."""
+    from rules import c13
+    sub = type(ctx)(ctx.prog, ctx.prop, ctx.tier)
+    c13.r3_alaska(sub)
+    kept = [o for o in sub.obs if "get_profile" in (o.construct or "")]
+    n_sib = len(kept)
+    sub2 = type(ctx)(ctx.prog, ctx.prop, ctx.tier)
+    c13.r4_argument_order(sub2)
+    kept += [o for o in sub2.obs if "alaska.py" in (o.site or "")]
+    for o in kept:
+        o.rule = "C09.R10"
+        ctx.obs.append(o)
+    if n_sib < 3:
+        ctx.vanished(f"Alaska.get_profile sibling clauses: only {n_sib}")
+
+
 RULES = [
+    ("C09.R10", r10_alaska_replay_agrees, 3, "Alaska.get_profile rebuilds the STV stage exactly as the run did (C13.R3 sibling clauses, C13.R4 argument slots)"),
     ("C09.P0", p0_closed_world, 1, "closed-world precondition: no reflective attribute access in the package"),
     ("C09.R1", r1_queries_pure, 9, "query methods and their call closure write nothing observable"),
     ("C09.R2", r2_writes_guarded, 20, "_run_step (and its unguarded helpers) writes only under `if store_states`"),
